@@ -494,7 +494,12 @@ class WsgiApplication(HttpBase):
 
         except Exception as e:
             logger.exception(e)
-            p_ctx.out_error = Fault('Server', get_fault_string_from_exception(e))
+            if not isinstance(e, Fault):
+                e = Fault('Server', get_fault_string_from_exception(e))
+
+            p_ctx.out_error = e
+            p_ctx.fire_event('method_exception_object')
+
             return self.handle_error(p_ctx, others, p_ctx.out_error,
                                                                  start_response)
 
